@@ -598,3 +598,59 @@ pub fn frames(_seed: u64) -> usize {
     }
     found
 }
+
+/// C04 bounded sweep at the connection level: every prefix of two legal client byte streams (status exchange; login start),
+/// followed by the end of the stream. `listen` has to return - with an error or not - promptly: each run gets its own OS thread
+/// and three seconds of wall-clock time, so that a handler that spins without ever yielding is seen as "still running".
+pub fn truncated(_seed: u64) -> usize {
+    fn vi(mut v: u32, out: &mut Vec<u8>) { loop { let b = (v & 0x7f) as u8; v >>= 7; if v == 0 { out.push(b); break; } out.push(b | 0x80); } }
+    fn frame(id: i32, body: &[u8]) -> Vec<u8> {
+        let mut idb = vec![]; vi(id as u32, &mut idb);
+        let mut out = vec![]; vi((idb.len() + body.len()) as u32, &mut out); out.extend(idb); out.extend_from_slice(body); out
+    }
+    let handshake = |next: u8| { let mut b = vec![]; vi(767, &mut b); b.push(9); b.extend_from_slice(b"localhost"); b.extend_from_slice(&[0x63, 0xdd]); b.push(next); frame(0x00, &b) };
+    let mut status = handshake(1); status.extend(frame(0x00, &[])); status.extend(frame(0x01, &[0, 0, 0, 0, 0, 0, 0, 9]));
+    let mut login = handshake(2); login.extend({ let mut b = vec![7]; b.extend_from_slice(b"Claimed"); b.extend_from_slice(&[0u8; 16]); frame(0x00, &b) });
+    let mut found = 0;
+    for (what, stream) in [("status exchange", status), ("login start", login)] {
+        for cut in 0..=stream.len() {
+            let input = stream[..cut].to_vec();
+            let (tx, rx) = std::sync::mpsc::channel::<String>();
+            std::thread::spawn(move || {
+                let rt = tokio::runtime::Builder::new_current_thread().enable_all().build().expect("rt");
+                let res = rt.block_on(async move {
+                    use tokio::io::AsyncWriteExt;
+                    let (mut client, server_stream): (DuplexStream, DuplexStream) = tokio::io::duplex(1 << 16);
+                    let mut server = Connection::new(
+                        server_stream,
+                        Arc::new(FixedStatusAdapter::default()),
+                        Arc::new(FixedDiscoveryAdapter::new(vec![])),
+                        Arc::new(Vec::<MetaFilterAdapter>::new()),
+                        Arc::new(AnyStrategyAdapter::new()),
+                        Arc::new(FixedAuthenticationAdapter::default()),
+                        Arc::new(FixedLocalizationAdapter::default()),
+                    );
+                    let _ = client.write_all(&input).await;
+                    let _ = client.shutdown().await;
+                    // the client keeps reading (and discarding) until the server closes
+                    let reader = tokio::spawn(async move { let mut sink = vec![]; let _ = client.read_to_end(&mut sink).await; });
+                    let r = server.listen().await.map_err(|e| e.to_string());
+                    drop(server);
+                    let _ = reader.await;
+                    format!("{r:?}")
+                });
+                let _ = tx.send(res);
+            });
+            match rx.recv_timeout(std::time::Duration::from_secs(3)) {
+                Ok(_) => {}
+                Err(_) => {
+                    println!("REPRODUCED truncated {what}: the client sent the first {cut} of {} bytes ({:02x?}) and closed; listen() was still running 3 s after the end of the stream", stream.len(), &stream[..cut]);
+                    found += 1;
+                    // the handler may be spinning on its thread: report and stop here
+                    return found;
+                }
+            }
+        }
+    }
+    found
+}
